@@ -272,17 +272,22 @@ def _load_helper_obasis(lit: LineIterator) -> MolecularBasis:
             words = next(lit).split()
             if not words:
                 break
-            # Read a new shell
-            angmom = angmom_sti(words[0])
+            # Read a new shell. An sp shell has two columns of contraction coefficients
+            # and is stored as an s shell followed by a p shell with the same exponents.
+            angmoms = [0, 1] if words[0].lower() == "sp" else [angmom_sti(words[0])]
             nexp = int(words[1])
             exponents = np.zeros(nexp)
-            coeffs = np.zeros((nexp, 1))
+            coeffs = np.zeros((nexp, len(angmoms)))
             for iprim in range(nexp):
                 words = next(lit).split()
                 exponents[iprim] = float(words[0].replace("D", "E"))
-                coeffs[iprim, 0] = float(words[1].replace("D", "E"))
+                for icon in range(len(angmoms)):
+                    coeffs[iprim, icon] = float(words[1 + icon].replace("D", "E"))
             # Unless changed later, all shells are assumed to be Cartesian.
-            shells.append(Shell(icenter, [angmom], ["c"], exponents, coeffs))
+            for icon, angmom in enumerate(angmoms):
+                shells.append(
+                    Shell(icenter, [angmom], ["c"], exponents.copy(), coeffs[:, icon : icon + 1])
+                )
     return MolecularBasis(shells, CONVENTIONS, "L2")
 
 
